@@ -15,9 +15,9 @@ BOUNDS = {
     'quick': 'sequential placements of a duplicate (same level, nested in itself, in a sibling function that catches, first '
              'occurrence failed, first occurrence cached vs rebuilt, duplicate hidden in a cached subtree that would be reused) '
              'for build_file paths and for subbuild keys with symbolic integer / float arguments; histories B.M.B.B; and two '
-             'threads issuing the same build_file path / subbuild key, pre-emption bound 2, every library system call and lock '
+             'threads issuing the same build_file path / subbuild key, pre-emption bound up to 3, every library system call and lock '
              'acquire a yield point, first occurrence fresh or served from the cache',
-    'thorough': 'pre-emption bound 3, three threads',
+    'thorough': 'pre-emption bound up to 4',
 }
 ASSUMPTIONS = ['thread switches only at environment calls and lock operations']
 WITNESSES = {'quick': ['duplicate-rejected', 'catcher-reexecuted', 'threads-one-winner'], 'thorough': ['duplicate-rejected']}
@@ -32,12 +32,14 @@ def families(tier):
         {'name': 'threads-bf', 'params': {'P': 2, 'prefix': False}, 'weight': 2},
         {'name': 'threads-bf', 'params': {'P': 1, 'prefix': True}, 'weight': 2},
         {'name': 'threads-sb', 'params': {'P': 2, 'prefix': False}, 'weight': 1},
+        {'name': 'threads-bf', 'params': {'P': 3, 'prefix': False}, 'weight': 3},
+        {'name': 'threads-bf', 'params': {'P': 2, 'prefix': True}, 'weight': 3},
     ]
     if tier == 'quick':
         return q
     return q + [
-        {'name': 'threads-bf', 'params': {'P': 3, 'prefix': False}, 'weight': 4},
-        {'name': 'threads-bf', 'params': {'P': 2, 'prefix': True}, 'weight': 4},
+        {'name': 'threads-bf', 'params': {'P': 4, 'prefix': False}, 'weight': 4},
+        {'name': 'threads-bf', 'params': {'P': 3, 'prefix': True}, 'weight': 4},
         {'name': 'threads-sb', 'params': {'P': 3, 'prefix': True}, 'weight': 3},
     ]
 
